@@ -258,6 +258,17 @@ Theorem c15_init_state_fresh : forall nt ss ml es,
 Proof. exact init_state_fresh. Qed.
 Print Assumptions c15_init_state_fresh.
 
+(* GENUINE DEFECT still present after 8aeecd5 (known_findings/C15.json, replayed on the
+   real bus): the full statement "no reachable state is quiescent with operations in
+   flight while every stalled sender is stalled on a subscription that nobody holds yet"
+   is FALSE.  Witness: two multi-type Subscribes with crossing type orders, each half
+   registered, and two Emits each holding the node lock the other Subscribe needs,
+   stalled on the other's channel.  (c15_no_deadlock stays true: its hypothesis
+   consumers_live cannot be met in that state.) *)
+Theorem c15_no_deadlock_full_refuted : ~ no_deadlock_full.
+Proof. exact no_deadlock_full_refuted_l. Qed.
+Print Assumptions c15_no_deadlock_full_refuted.
+
 (* the schedule that deadlocked the unrepaired bus (half-registered multi-type
    Subscribe + Emit stalled on it + third operation on the same type), continued:
    the Subscribe returns, Close releases the Emit, the third operation returns *)
